@@ -1434,7 +1434,7 @@ int main(int argc, char** argv) {
             switch (*pFormat) {
             case 'd':
             case 'D':
-                fprintf(TargFile, "  const char *data;\n");
+                fprintf(TargFile, "  const unsigned char *data;\n");
                 break;
             case 's':
                 fprintf(TargFile, "  unsigned start;\n");
